@@ -760,8 +760,10 @@ def r20_6_region_reinit(ck, P):
     for f in P.functions():
         if _re.match(r'pixman_region(32)?_init', f.name):
             continue        # the init family itself: its region argument is uninitialised by contract
-        for c in f.calls():
-            if not c.callee or not _INIT_RE.match(c.callee) or not c.a:
+        for c in list(f.calls()) + [('ow', c_) for c_ in _struct_overwrites(f)]:
+            if isinstance(c, tuple):
+                c = c[1]
+            elif not c.callee or not _INIT_RE.match(c.callee) or not c.a:
                 continue
             rs = common.roots(f, c.a[0])
             if not any(r[0] == 'arg' for r in rs):
@@ -780,7 +782,20 @@ def r20_6_region_reinit(ck, P):
             elif single:
                 ck.ok(R, '%s: %s on a single-rectangle region (no heap data)' % (f.name, c.callee))
             else:
-                ck.violation(R, f.name, 're-initialisation by ' + c.callee, '%s overwrites a live region with %s without pixman_region*_fini first: the rectangle array it held is leaked' % (f.name, c.callee), c.loc())
+                ck.violation(R, f.name, 're-initialisation by ' + ('struct assignment' if c.callee.startswith('llvm.') else c.callee), '%s overwrites a live region with %s without pixman_region*_fini first: the rectangle array it held is leaked' % (f.name, 'a struct assignment' if c.callee.startswith('llvm.') else c.callee), c.loc())
+
+
+def _struct_overwrites(f):
+    """whole-struct assignments `*region_param = ...` (an llvm.memcpy onto a region parameter or an embedded region)"""
+    out = []
+    for c in f.calls():
+        if not (c.callee or '').startswith(('llvm.memcpy', 'llvm.memmove')) or not c.a:
+            continue
+        o = f.strip_casts(c.a[0])
+        ty = f.params[o[1]][1] if o[0] == 'a' else (f.by_id[o[1]].ty if o[0] == 'v' else '')
+        if _re.match(r'^%struct\.pixman_region(16|32)\*$', ty) and not f.unit.name.startswith('pixman-region'):
+            out.append(c)         # the region implementation itself moves its structs around under its own rules (C05/C06)
+    return out
 
 
 def r20_4b_exchange_order(ck, P):
